@@ -117,8 +117,8 @@ type tBadFunc struct {
 }
 
 type tBadDeep struct {
-	OK  string `json:"ok"`
-	In  struct {
+	OK string `json:"ok"`
+	In struct {
 		C chan int     `json:"c"`
 		M map[int]bool `json:"m"`
 		Z complex128   `json:"z"`
@@ -132,11 +132,11 @@ type tNamedString string
 type tNamedInt int32
 
 type tNamedFields struct {
-	NS  tNamedSlice   `json:"ns"`
-	NM  tNamedMap     `json:"nm"`
-	Str tNamedString  `json:"str"`
-	PI  *tNamedInt    `json:"pi"`
-	PP  **tNamedInt   `json:"pp"`
+	NS  tNamedSlice  `json:"ns"`
+	NM  tNamedMap    `json:"nm"`
+	Str tNamedString `json:"str"`
+	PI  *tNamedInt   `json:"pi"`
+	PP  **tNamedInt  `json:"pp"`
 	SP  []*tNamedString
 }
 
@@ -261,4 +261,42 @@ func init() {
 	TSTypes["string"] = reflect.TypeOf("")
 	TSTypes["int"] = reflect.TypeOf(0)
 	TSTypes["slog.Level"] = reflect.TypeOf(slog.Level(0))
+}
+
+// CorpusMentioning maps a TSTypes name to the indices of the corpus types whose structure
+// mentions that type (as a field, an embedded field, an element or a key, behind pointers): an
+// override only matters for such types.
+var CorpusMentioning = map[string][]int{}
+
+func init() {
+	var mentions func(t, want reflect.Type, seen map[reflect.Type]bool, depth int) bool
+	mentions = func(t, want reflect.Type, seen map[reflect.Type]bool, depth int) bool {
+		if t == want {
+			return true
+		}
+		if seen[t] || depth > 6 {
+			return false
+		}
+		seen[t] = true
+		switch t.Kind() {
+		case reflect.Pointer, reflect.Slice, reflect.Array:
+			return mentions(t.Elem(), want, seen, depth+1)
+		case reflect.Map:
+			return mentions(t.Key(), want, seen, depth+1) || mentions(t.Elem(), want, seen, depth+1)
+		case reflect.Struct:
+			for i := 0; i < t.NumField(); i++ {
+				if mentions(t.Field(i).Type, want, seen, depth+1) {
+					return true
+				}
+			}
+		}
+		return false
+	}
+	for _, name := range sortedKeys(TSTypes) {
+		for i, ct := range TypeCorpus {
+			if ct.T != TSTypes[name] && mentions(ct.T, TSTypes[name], map[reflect.Type]bool{}, 0) {
+				CorpusMentioning[name] = append(CorpusMentioning[name], i)
+			}
+		}
+	}
 }
